@@ -80,7 +80,11 @@ func (f *Frame) ghostAt(st *State, s ast.Stmt, before bool) {
 			continue
 		}
 		g.Used = true
-		args := f.bindByName(st, g.Params, s.Pos(), nil)
+		at := s.Pos()
+		if !before {
+			at = s.End() // variables declared by the statement itself are visible to an "after" ghost
+		}
+		args := f.bindByName(st, g.Params, at, nil)
 		gf := &Frame{vc: f.vc, pk: g.Pkg, spec: true, old: f.old, bound: map[types.Object]Term{}, specEnv: f.specEnv, closures: map[types.Object]*ast.FuncLit{}}
 		gf.inline(st, g.Pkg, g.Decl, nil, args, f.tsub, true, s.Pos())
 	}
@@ -295,10 +299,6 @@ func (f *Frame) declare(st *State, nm *ast.Ident, v Term, src ast.Expr) {
 
 func (f *Frame) declareZero(st *State, obj types.Object) {
 	t := f.subst(obj.Type())
-	if isStructValue(t) {
-		f.zeroStructVar(st, obj, "", t.Underlying().(*types.Struct))
-		return
-	}
 	st.env[envKey{obj, ""}] = f.vc.zero(t)
 }
 
@@ -384,14 +384,6 @@ func (f *Frame) assign(st *State, s *ast.AssignStmt) {
 	vals := make([]Term, len(s.Rhs))
 	for i, r := range s.Rhs {
 		lh := s.Lhs[i]
-		// struct-valued local initialised from a composite literal
-		if cl, ok := r.(*ast.CompositeLit); ok && isStructValue(f.typeOf(cl)) {
-			if id, ok := lh.(*ast.Ident); ok {
-				f.structLitToVar(st, id, cl)
-				vals[i] = Term{}
-				continue
-			}
-		}
 		var tt types.Type
 		var obj types.Object
 		if id, ok := lh.(*ast.Ident); ok && id.Name != "_" {
